@@ -455,6 +455,40 @@ pub fn main_many(args: &[String]) {
             }
             w.finalize().map_err(|e| ("valid-call-refused".to_string(), format!("finalize: {e:?}")))?;
             let bytes = w.into_raw();
+            if mode == "sources" {
+                // HISTORIES of sources (C09): a source that FAILS after delivering part of what was announced, then - on the same
+                // writer - a source that merely ends early: the second call must not be reported as success
+                struct Failing(Vec<u8>, usize);
+                impl Read for Failing {
+                    fn read(&mut self, buf: &mut [u8]) -> std::io::Result<usize> {
+                        if self.1 >= self.0.len() {
+                            return Err(std::io::Error::new(std::io::ErrorKind::TimedOut, "source failure"));
+                        }
+                        let n = buf.len().min(self.0.len() - self.1).min(3);
+                        buf[..n].copy_from_slice(&self.0[self.1..self.1 + n]);
+                        self.1 += n;
+                        Ok(n)
+                    }
+                }
+                for (announced, delivered, then_short) in [(8usize, 3usize, 5usize), (100, 99, 1), (70_000, 100, 69_999), (70_000, 69_000, 1_000), (8, 0, 8 - 1)] {
+                    for via_add in [false, true] {
+                        let mut w4 = ArchiveWriter::from_config(Vec::new(), archive::writer_config(&par)).map_err(|e| ("create-error".to_string(), format!("{e:?}")))?;
+                        let data = archive::file_bytes(&par, 3, 0, announced);
+                        let id = w4.start_file("victim").map_err(|e| ("valid-call-refused".to_string(), format!("{e:?}")))?;
+                        let first = if via_add { w4.add_file("other", announced as u64, Failing(data[..delivered].to_vec(), 0)) }
+                                    else { w4.append_file_content(id, announced as u64, Failing(data[..delivered].to_vec(), 0)) };
+                        if first.is_ok() {
+                            return Err(("short-source-ok".into(), format!("a source failing after {delivered} of {announced} bytes was reported as success")));
+                        }
+                        let second = if via_add { w4.add_file("other2", announced as u64, &data[..then_short]) }
+                                     else { w4.append_file_content(id, announced as u64, &data[..then_short]) };
+                        if second.is_ok() {
+                            return Err(("short-source-ok".into(), format!("after a failed source ({delivered}/{announced} bytes), a source of {then_short} bytes for {announced} announced was reported as success (add_file: {via_add})")));
+                        }
+                    }
+                }
+                return Ok(());
+            }
             if mode == "roundtrip" {
                 // a COUNT of runs: two files written in 700 alternating pieces each (700 offsets per file in the index)
                 let mut w2 = ArchiveWriter::from_config(Vec::new(), archive::writer_config(&par)).map_err(|e| ("create-error".to_string(), format!("{e:?}")))?;
@@ -493,6 +527,47 @@ pub fn main_many(args: &[String]) {
                     f.data.read_to_end(&mut got).map_err(|e| ("read-error".to_string(), format!("{name}: {e:?}")))?;
                     if got != content(i) || f.size != got.len() as u64 {
                         return Err(("content-mismatch".into(), name));
+                    }
+                }
+                // SIZES of single calls at production scale: one StreamWriter::write_all of 9 MiB + 5, one append of 17 MiB,
+                // between small files; read back, then extracted linearly by subsets that skip the big blocks
+                if st != "enc" {
+                    let mut w3 = ArchiveWriter::from_config(Vec::new(), archive::writer_config(&par)).map_err(|e| ("create-error".to_string(), format!("{e:?}")))?;
+                    let big1 = archive::file_bytes(&par, 5, 0, (9 << 20) + 5);
+                    let big2 = archive::file_bytes(&par, 6, 0, 17 << 20);
+                    let refused = |e: mla::errors::Error| ("valid-call-refused".to_string(), format!("{e:?}"));
+                    let id1 = w3.start_file("big-stream").map_err(refused)?;
+                    {
+                        use std::io::Write;
+                        let mut sw = mla::helpers::StreamWriter::new(&mut w3, id1);
+                        sw.write_all(&big1).map_err(|e| ("valid-call-refused".to_string(), format!("StreamWriter::write_all: {e}")))?;
+                    }
+                    w3.end_file(id1).map_err(refused)?;
+                    w3.add_file("small", 100, &big1[..100]).map_err(refused)?;
+                    w3.add_file("big-append", big2.len() as u64, &big2[..]).map_err(refused)?;
+                    w3.add_file("last", 3, &big2[..3]).map_err(refused)?;
+                    w3.finalize().map_err(refused)?;
+                    let mut rd3 = ArchiveReader::from_config(Cursor::new(w3.into_raw()), archive::reader_config(&par)).map_err(|e| ("open-error".to_string(), format!("big: {e:?}")))?;
+                    let wants: Vec<(String, &[u8])> = vec![("big-stream".into(), &big1[..]), ("small".into(), &big1[..100]), ("big-append".into(), &big2[..]), ("last".into(), &big2[..3])];
+                    for (name, want) in &wants {
+                        let mut got = vec![];
+                        let mut f = rd3.get_file(name.clone()).map_err(|e| ("read-error".to_string(), format!("{name}: {e:?}")))?.ok_or(("list-mismatch".to_string(), name.clone()))?;
+                        let size = f.size;
+                        f.data.read_to_end(&mut got).map_err(|e| ("read-error".to_string(), format!("{name}: {e:?}")))?;
+                        if &got[..] != *want || size != want.len() as u64 {
+                            return Err(("content-mismatch".into(), format!("{name}: {} bytes read (size {size}), {} written in one call", got.len(), want.len())));
+                        }
+                    }
+                    for subset in [vec!["small", "last"], vec!["big-stream"], vec!["big-append", "small"], vec!["big-stream", "small", "big-append", "last"]] {
+                        let chosen: Vec<String> = subset.iter().map(|x| (*x).to_string()).collect();
+                        let mut export: HashMap<&String, Vec<u8>> = chosen.iter().map(|nm| (nm, Vec::new())).collect();
+                        mla::helpers::linear_extract(&mut rd3, &mut export).map_err(|e| ("linear-error".to_string(), format!("subset {subset:?}: {e:?}")))?;
+                        for (nm, got) in &export {
+                            let want = wants.iter().find(|w| &w.0 == *nm).unwrap().1;
+                            if &got[..] != want {
+                                return Err(("linear-content-mismatch".into(), format!("subset {subset:?}: {nm}: {} bytes delivered, {} expected", got.len(), want.len())));
+                            }
+                        }
                     }
                 }
                 // linear extraction (C12) of everything, then of a subset taken at the end of the archive
